@@ -63,6 +63,18 @@ CHECKS = {
             "Everything at once, with a logger that formats every record at Trace and debug assertions / overflow checks on: the adversary node (all telegram shapes, own address, addresses > 125, garbage, truncated and concatenated frames) against a station alone or with DpMaster (0..3 peripherals), LiveList, DpScanner and traffic applications through poll()/poll_multi(); DP worlds with storms, Byzantine slaves (every reply shape incl. malformed extended diagnostics), power cycles, user calls; faulty rings with crashes, stalls, clock jumps in both directions, stale RX bytes, early-TX-done PHY, noise. Oracle: no panic (message + location), no hang (worker watchdog, re-check alone with 3x limit), PHY contract honoured.",
             "Trusted: catch_unwind + panic hook, wall-clock watchdog of the driver. Not generated: set_passive/enter_stop/enter_clear (todo!()), parameter values the builder rejects, changing the application list while online (DESIGN 5.7). Known finding F12 (reset_address with a request in flight) is generated in the thorough tier only.",
             "deterministic simulation with fault injection; panic / hang / PHY-contract oracle"),
+    "C10": ("rx", "fault_enumeration", "6 C10",
+            "Frames of every kind and length (incl. the non-canonical SD2 forms) are sent over a byte-timed link and damaged in flight (every single-bit error and byte substitution at each position class, two-bit errors, truncation, noise, structured 68 LE LEr 68 headers with random bodies, concatenation); the receiver is polled at random instants so that the decoder sees every prefix length. On every buffer the real Telegram::deserialize is compared with the maximally eager reference decoder R1: accept => same telegram and length; valid prefix => asks for more; invalid => reject, or ask for more only while shorter than the announced frame; verdicts never flip along a growing buffer; length inside the input; a single-byte-damaged data frame or SC is never a different telegram (delimiter substitution excepted, where the verdict must equal R1's); panics count.",
+            "Trusted: R1 (written from the frame format), the damage injector. Token telegrams carry no checksum and are exempt from the 'different telegram' clause.",
+            "deterministic simulation with fault injection on a byte stream; reference decoder as oracle"),
+    "C16": ("rx", "exploration", "6 C16",
+            "Sequences of valid telegrams (token, SC, SD1/SD2/SD3 of all lengths, back to back or separated) x byte availability (exact wire timing, bursts, whole frames) x receiver poll instants x choice of receive_telegram / receive_all_telegrams / poll_pending_received_bytes per poll, over the harness queue PHY and over the crate's SimulatorPhy. Every receive_data call of the helpers is judged against R1 on the same buffer (telegram delivered iff complete, exactly its length dropped, nothing dropped from an incomplete telegram, is_last_telegram iff nothing is buffered behind it, return values); at the end exactly the sent telegrams were delivered in order, once; a telegram that arrives on a buffer emptied by a discard is delivered.",
+            "Trusted: R1, the spy wrapper around receive_data (the provided trait methods run unmodified on top of it).",
+            "deterministic simulation (seeded chunking and poll schedules); stream model as oracle"),
+    "C18": ("scan", "fault_enumeration", "6 C18",
+            "One real station running LiveList and/or DpScanner (alone, with a second real master, with further applications) against a population of reference responders / DP slaves over addresses 0..125 that appear and disappear, with lost telegrams: only addresses 0..125 are probed, in sweep order; the event of every poll must equal what the live-set model R8 derives from the call log (an address is live iff it answered its last probe): Discovered/Found, Requery, Lost alternate per address; after the population has been quiet for two complete sweeps iter_stations() / the Found-minus-Lost set equals the answering stations (minus the scanner) with their ident numbers.",
+            "Trusted: reference responders, call-log probe. Faults are losses only (the quantifier); corruption can fabricate a short confirmation, see DESIGN section 7 observation O2.",
+            "deterministic simulation with fault injection (lost telegrams, population histories); live-set model as oracle"),
 }
 
 PENDING = ["C03", "C04", "C05", "C06", "C07", "C08", "C10", "C11", "C12", "C13", "C14", "C15", "C16", "C18"]
